@@ -108,7 +108,12 @@ def make_unit(p, nbetas="general"):
     info = dict(unit="find_affected_components", p=p, betas=nbetas)
 
     def run(eng, acc):
-        from skchange.anomaly_detectors.mvcapa import find_affected_components
+        try:
+            from skchange.anomaly_detectors.mvcapa import find_affected_components
+        except ImportError:
+            acc.inc("skipped_anchor_not_found")      # internal helper renamed / inlined: the MVCAPA runs still cover it
+            acc.concrete("unit.skipped_anchor_not_found", True)
+            return
         sav = TableSaving(p=p).fit(X)
         res = find_affected_components(sav, [(0, 2)], SymReal(alpha), np.array([SymReal(b) for b in betas], dtype=object))
         acc.concrete("unit.shape", len(res) == 1 and tuple(res[0][:2]) == (0, 2), dict(info, res=str(res)[:100]), eng=eng)
